@@ -12,6 +12,7 @@ ORIGIN = {
     1: "fresh sub-agent given only the property text and a scratch worktree",
     2: "second-round sub-agent (brief: seeded/BRIEF2.md: size thresholds, hidden state, rare dtypes, argument combinations, names)",
     3: "third-round sub-agent (brief: seeded/BRIEF3.md)",
+    7: "seventh-round sub-agent (brief: seeded/BRIEF7.md: branch-oriented - list the branches of the anchored code, cross off those already attacked, break one of the rest)",
     6: "sixth-round sub-agent (brief: seeded/BRIEF6.md: data-dependent fast paths, Python/NumPy type pitfalls, array forms, mixed-type object columns, Unicode beyond the BMP, degenerate shapes, subclasses, negative steps)",
     5: "fifth-round sub-agent (brief: seeded/BRIEF5.md: state leaking between calls, environment, feature interactions, subclass and attribute preservation, boundary arguments, order of evaluation, precision of conversions)",
     4: "fourth-round sub-agent (brief: seeded/BRIEF4.md: width, duplicates from outside, misbehaving callbacks, failure atomicity, keyword pass-through, text normalisation, dtype-edge arithmetic, re-entrancy)",
